@@ -59,6 +59,7 @@ func (s *Service) VerifCluster() *cluster.Swarm    { return s.cluster }
 func (s *Service) VerifStorage() storage.Storage   { return s.storage }
 func (s *Service) VerifKeygen() *keygen.Service    { return s.keygen }
 func (s *Service) VerifPresenceQueued() int        { return s.presence.VerifQueued() }
+func (s *Service) VerifPresenceBarrier()           { s.presence.VerifBarrier() }
 
 // VerifBan adds or removes a ban the way keyban does after its checks.
 func (s *Service) VerifBan(key string, on bool) {
